@@ -27,6 +27,9 @@ def run(ctx):
     rule_predicates(ctx, repo)
     rule_sigops(ctx, repo, eng)
     rule_siblings(ctx, repo)
+    r = ctx.rule('C08.I2', 'predicates and counts are defined for every byte string: a constant index into the script is guarded by a length test on every path', engine='GUARD', floor=4)
+    ci_ = repo.get_class(CS)
+    common.const_index_instances(r, repo, [f for f in ci_.methods.values()], only=('self',), what='a shorter script raises IndexError where the predicate has an answer')
     ctx.not_decided += ['the script-number codec bn2vch/vch2bn (arithmetic; bijection not decided)', 'byte-exact rebuild equality of arbitrary scripts (follows from the decided tables plus the codec)',
                         'is_witness_scriptpubkey: the two header-byte conditions read through a signed struct format are listed, not decided']
     ctx.assume('bytes indexing/slicing semantics')
